@@ -125,7 +125,9 @@ Definition bools := [false; true].
 Definition bodies : list body :=
   [BFail; BPlain; BFin true; BFin false; BHelloNoCookie] ++
   flat_map (fun a => flat_map (fun b => flat_map (fun c => flat_map (fun d => map (fun e => BHello12 a b c d e) bools) bools) bools) bools) bools ++
-  flat_map (fun a => flat_map (fun b => map (fun c => BHello13 a b c) bools) bools) bools.
+  flat_map (fun a => flat_map (fun b => map (fun c => BHello13 a b c) bools) bools) bools ++
+  (* a resumption offer that is turned down *)
+  map BHello13d bools ++ flat_map (fun a => map (fun b => BHello12d a b) bools) bools.
 (* every value ssl->hsState can hold and every handshake type the code compares with *)
 Definition types : list Z :=
   [HREQ; CH; SH; c_SSL_HS_HELLO_VERIFY_REQUEST; NST; EOED; EE; CERT; SKE; CREQ; SHD; CVFY; CKE; FIN; CSTAT;
@@ -145,6 +147,8 @@ Definition body_eqb (a b : body) : bool :=
   | BHello12 a1 a2 a3 a4 a5, BHello12 b1 b2 b3 b4 b5 => Bool.eqb a1 b1 && Bool.eqb a2 b2 && Bool.eqb a3 b3 && Bool.eqb a4 b4 && Bool.eqb a5 b5
   | BHello13 a1 a2 a3, BHello13 b1 b2 b3 => Bool.eqb a1 b1 && Bool.eqb a2 b2 && Bool.eqb a3 b3
   | BHelloNoCookie, BHelloNoCookie => true
+  | BHello13d a1, BHello13d b1 => Bool.eqb a1 b1
+  | BHello12d a1 a2, BHello12d b1 b2 => Bool.eqb a1 b1 && Bool.eqb a2 b2
   | _, _ => false
   end.
 Definition mcls_eqb (a b : mcls) : bool :=
@@ -277,6 +281,24 @@ Proof.
   - inversion H; subst. auto.
 Qed.
 
+(* ---- offered is not selected: the figures are indexed by what was selected; a declined offer changes nothing *)
+Definition set_declined (md : mode) (b : bool) : mode :=
+  mkmode (md_v13 md) (md_server md) (md_kex md) (md_cauth md) (md_res md) (md_newticket md) (md_ocsp md) (md_hrr md) (md_early md)
+         (md_dtls md) b.
+Lemma flow_declined md b f : flow md f -> flow (set_declined md b) f.
+Proof.
+  intro H. destruct H as [md cstat ske creq ccv H1 H2 H3 H4 H5 H6 H7 H8 H9 | md H1 H2 | md creq ccv nsts H1 H2 H3 H4 H5 H6].
+  - apply (Flow12Full (set_declined md b) cstat ske creq ccv); assumption.
+  - apply (Flow12Abbr (set_declined md b)); assumption.
+  - apply (Flow13 (set_declined md b) creq ccv nsts); assumption.
+Qed.
+Lemma legal_declined md b l : legal md l -> legal (set_declined md b) l.
+Proof.
+  intros [f [D [C R]]]. exists f. split; [|split; [exact C | exact R]].
+  destruct D as [F | [Dt [f0 [F E]]]]; [left; apply flow_declined; exact F | right; split; [exact Dt|]].
+  exists f0. split; [apply flow_declined; exact F | exact E].
+Qed.
+
 Lemma flows_sound md nsts f : Forall (fun k => k = KHs NST) nsts -> In f (flows md nsts) -> flow md f.
 Proof.
   intros Hn Hin. unfold flows in Hin. destruct (md_v13 md) eqn:V.
@@ -359,7 +381,7 @@ Qed.
 (* ================================================================== from the alphabet to all inputs *)
 Lemma bodies_all b : In b bodies.
 Proof.
-  destruct b as [| [] [] [] [] [] | [] [] [] | [] | |]; unfold bodies; cbn; repeat (try (left; reflexivity); right).
+  destruct b as [| [] [] [] [] [] | [] [] [] | [] | | | [] | [] []]; unfold bodies; cbn; repeat (try (left; reflexivity); right).
 Qed.
 
 Lemma in_alphabet i : match i with ICcs => True | IHs m => In (m_typ m) types end -> In i (alphabet true).
@@ -998,7 +1020,7 @@ Qed.
 
 Lemma is_fin_true_inv i : is_fin_true i = true -> exists cl, i = IHs (mkmsg FIN (BFin true) cl).
 Proof.
-  destruct i as [|[t b cl]]; cbn; try discriminate. destruct b as [| | |[]| |]; try discriminate.
+  destruct i as [|[t b cl]]; cbn; try discriminate. destruct b as [| | |[]| | | |]; try discriminate.
   intro H. apply Z.eqb_eq in H. subst. exists cl. reflexivity.
 Qed.
 
@@ -1038,7 +1060,7 @@ Proof.
   intros c cis Hc s He Hd.
   destruct (binds_gen conc c cis (init c) (init_live c Hc) He Hd) as [xs1 [[i vd] [xs2 [Hx [[E1 [D1 _]] [F T]]]]]].
   apply is_fin_true_inv in F. destruct F as [cl0 F].
-  destruct i as [|[t b cl]]; [discriminate|]. destruct b as [| | |b| |]; cbn [conc] in F; try discriminate.
+  destruct i as [|[t b cl]]; [discriminate|]. destruct b as [| | |b| | | |]; cbn [conc] in F; try discriminate.
   inversion F as [[Ht Hv Hcl]]. subst t. exists xs1, b, cl, vd, xs2. split; [exact Hx|]. split; [exact D1|]. split; [first [exact Hv | reflexivity] | exact T].
 Qed.
 End Verify.
